@@ -244,3 +244,77 @@ Definition pipeline (scorer : scorer_t) (policy : option policy_t) (s : screen) 
 (* the score of plate id [pid] under the conditioning the code applies *)
 Definition plate_score (scorer : scorer_t) (s : screen) (batch : list Z) (pid : Z) : Z :=
   scorer pid (rows_for s batch (get_plate s pid)).
+
+(* ---- vocabulary of the source translations (harness/src_functions.py -> Generated/SrcScoring.v):
+        the meaning given to the attribute / library calls of scoring/main.py that the translator does not
+        translate.  Definitions only. ---- *)
+(* np.random.default_rng(): the generator is only handed on (to the policy / the scorer), never read *)
+Definition rng_t : Type := unit.
+Definition fresh_rng : rng_t := tt.
+(* Plate.plate_name = screen.plate_names[selection_vector][0]: IndexError (Err 7) when the plate selects no row,
+   otherwise the name stored at its first selected row (represented by that row's position) *)
+Definition plate_name (p : plate) : result nat :=
+  match p_rows p with
+  | [] => Err 7
+  | ir :: _ => Ok (fst ir)
+  end.
+(* a ScreenSubset: the (position, row) pairs its selection vector selects, in storage order.  A Plate used where a
+   ScreenSubset is expected (Plate is a subclass) is its rows p_rows *)
+Definition subset : Type := list irow.
+Definition selects (a : subset) (ir : irow) : bool := existsb (Nat.eqb (fst ir)) (map fst a).
+(* a.combine(b) = Plate(screen, a.selection_vector | b.selection_vector) *)
+Definition subset_union (s : screen) (a b : subset) : subset :=
+  filter (fun ir => selects a ir || selects b ir) (indexed s).
+(* ScreenSubset.concat(l): ValueError on [] (Err 3); a single element is returned itself; otherwise the subset whose
+   selection vector is the disjunction of all *)
+Definition subset_concat (s : screen) (l : list subset) : result subset :=
+  match l with
+  | [] => Err 3
+  | [a] => Ok a
+  | _ => Ok (filter (fun ir => existsb (fun a => selects a ir) l) (indexed s))
+  end.
+(* np.array_split(l, n)[i].tolist(): ValueError for n <= 0 (Err 1), IndexError for i out of range (Err 2) *)
+Definition array_split_at {A} (l : list A) (n i : Z) : result (list A) :=
+  if n <=? 0 then Err 1
+  else match py_index (array_split l (Z.to_nat n)) i with
+       | Some c => Ok c
+       | None => Err 2
+       end.
+(* Scorer.score(plates=d, ...): an arbitrary function of the dict it is handed (plate id -> subset, in dict order)
+   to the dict it returns (plate id -> score key, in dict order) *)
+Definition scorer_fn : Type := list (Z * subset) -> list slot.
+(* ---- ChunkedScoresHolder's two numpy arrays as lists (translations of add_score / combine /
+        plate_id_with_minimum_score / concat): a holder is represented by (scores, plate_ids, current_index) ---- *)
+Definition holder_arrays (h : holder) : list Z * list Z * Z :=
+  (map snd (h_slots h), map fst (h_slots h), Z.of_nat (h_cur h)).
+(* a.argmin(): position and value of the FIRST minimum; ValueError (Err 6) on an empty array *)
+Fixpoint argmin_from (l : list Z) : option (nat * Z) :=
+  match l with
+  | [] => None
+  | x :: r => match argmin_from r with
+              | None => Some (0%nat, x)
+              | Some (j, y) => if y <? x then Some (S j, y) else Some (0%nat, x)
+              end
+  end.
+Definition argmin_index (l : list Z) : result Z :=
+  match argmin_from l with
+  | Some (j, _) => Ok (Z.of_nat j)
+  | None => Err 6
+  end.
+(* a[i].item(): IndexError (Err 4) outside -len..len-1 *)
+Definition array_item (l : list Z) (i : Z) : result Z :=
+  match py_index l i with
+  | Some x => Ok x
+  | None => Err 4
+  end.
+(* np.isin(a, l) *)
+Definition isin (a l : list Z) : list bool := map (fun x => zmem x l) a.
+(* a[mask] with a boolean mask: IndexError (Err 4) when the lengths differ *)
+Definition mask_select (a : list Z) (m : list bool) : result (list Z) :=
+  if (length a =? length m)%nat then Ok (map fst (filter snd (combine a m))) else Err 4.
+(* l[0] on a Python list *)
+Definition list_head {A} (l : list A) : result A :=
+  match l with
+  | x :: _ => Ok x
+  | [] => Err 4
+  end.
